@@ -13,8 +13,34 @@ trait Fx: Copy + PartialOrd + Debug + Display + AbsDiffEq<Epsilon = Self> + Rela
     fn f(self) -> f64;
     fn eps() -> Self;
     fn ulps_between(a: Self, b: Self) -> u64;
+    // the interval-level comparisons are called on the concrete float types (not through the
+    // generic parameter), so that an additional trait bound on the crate's impls cannot stop
+    // this checker from compiling
+    fn iv_abs(a: &Interval<Self>, b: &Interval<Self>, e: Self) -> (bool, bool);
+    fn iv_rel(a: &Interval<Self>, b: &Interval<Self>, e: Self, r: Self) -> (bool, bool);
+    fn iv_ulps(a: &Interval<Self>, b: &Interval<Self>, e: Self, u: u32) -> (bool, bool);
+    fn iv_defaults_ok() -> bool;
+}
+macro_rules! iv_cmp {
+    () => {
+        fn iv_abs(a: &Interval<Self>, b: &Interval<Self>, e: Self) -> (bool, bool) {
+            (a.abs_diff_eq(b, e), a.abs_diff_ne(b, e))
+        }
+        fn iv_rel(a: &Interval<Self>, b: &Interval<Self>, e: Self, r: Self) -> (bool, bool) {
+            (a.relative_eq(b, e, r), a.relative_ne(b, e, r))
+        }
+        fn iv_ulps(a: &Interval<Self>, b: &Interval<Self>, e: Self, u: u32) -> (bool, bool) {
+            (a.ulps_eq(b, e, u), a.ulps_ne(b, e, u))
+        }
+        fn iv_defaults_ok() -> bool {
+            <Interval<Self> as AbsDiffEq>::default_epsilon() == <Self as AbsDiffEq>::default_epsilon()
+                && <Interval<Self> as RelativeEq>::default_max_relative() == <Self as RelativeEq>::default_max_relative()
+                && <Interval<Self> as UlpsEq>::default_max_ulps() == <Self as UlpsEq>::default_max_ulps()
+        }
+    };
 }
 impl Fx for f64 {
+    iv_cmp!();
     const NAME: &'static str = "f64";
     fn of(x: f64) -> Self {
         x
@@ -30,6 +56,7 @@ impl Fx for f64 {
     }
 }
 impl Fx for f32 {
+    iv_cmp!();
     const NAME: &'static str = "f32";
     fn of(x: f64) -> Self {
         x as f32
@@ -140,47 +167,47 @@ fn judge_pair<T: Fx>(i: usize, j: usize, s: &mut Sink) {
     for &e in &epsilons {
         s.evals += 1;
         s.calls += 3;
-        let got = a.abs_diff_eq(&b, e);
+        let got = T::iv_abs(&a, &b, e).0;
         let exp = expect(&|x, y| T::abs_diff_eq(&x, &y, e));
         s.outcome(&("abs", &ksig, got, exp));
         if got != exp {
             s.violation(format!("abs_diff_eq/{ksig}/got={got}"), format!("{a:?}.abs_diff_eq({b:?}, {e:?}) = {got}, bound-wise = {exp}"), case());
         }
-        if a.abs_diff_ne(&b, e) == got {
+        if T::iv_abs(&a, &b, e).1 == got {
             s.violation("abs_diff_ne-not-negation", format!("{a:?} vs {b:?} eps {e:?}"), case());
         }
-        if b.abs_diff_eq(&a, e) != got {
+        if T::iv_abs(&b, &a, e).0 != got {
             s.violation(format!("abs_diff_eq-asymmetric/{ksig}"), format!("{a:?} vs {b:?} eps {e:?}"), case());
         }
         for &r in &rels {
             s.evals += 1;
             s.calls += 3;
-            let got = a.relative_eq(&b, e, r);
+            let got = T::iv_rel(&a, &b, e, r).0;
             let exp = expect(&|x, y| T::relative_eq(&x, &y, e, r));
             s.outcome(&("rel", &ksig, got, exp));
             if got != exp {
                 s.violation(format!("relative_eq/{ksig}/got={got}"), format!("{a:?}.relative_eq({b:?}, {e:?}, {r:?}) = {got}, bound-wise = {exp}"), case());
             }
-            if a.relative_ne(&b, e, r) == got {
+            if T::iv_rel(&a, &b, e, r).1 == got {
                 s.violation("relative_ne-not-negation", format!("{a:?} vs {b:?}"), case());
             }
-            if b.relative_eq(&a, e, r) != got {
+            if T::iv_rel(&b, &a, e, r).0 != got {
                 s.violation(format!("relative_eq-asymmetric/{ksig}"), format!("{a:?} vs {b:?} eps {e:?} rel {r:?}"), case());
             }
         }
         for &u in &ulps {
             s.evals += 1;
             s.calls += 3;
-            let got = a.ulps_eq(&b, e, u);
+            let got = T::iv_ulps(&a, &b, e, u).0;
             let exp = expect(&|x, y| T::ulps_eq(&x, &y, e, u));
             s.outcome(&("ulps", &ksig, got, exp));
             if got != exp {
                 s.violation(format!("ulps_eq/{ksig}/got={got}"), format!("{a:?}.ulps_eq({b:?}, {e:?}, {u}) = {got}, bound-wise = {exp}"), case());
             }
-            if a.ulps_ne(&b, e, u) == got {
+            if T::iv_ulps(&a, &b, e, u).1 == got {
                 s.violation("ulps_ne-not-negation", format!("{a:?} vs {b:?}"), case());
             }
-            if b.ulps_eq(&a, e, u) != got {
+            if T::iv_ulps(&b, &a, e, u).0 != got {
                 s.violation(format!("ulps_eq-asymmetric/{ksig}"), format!("{a:?} vs {b:?} eps {e:?} ulps {u}"), case());
             }
         }
@@ -189,16 +216,13 @@ fn judge_pair<T: Fx>(i: usize, j: usize, s: &mut Sink) {
     if a == b {
         s.calls += 3;
         let z = T::of(0.0);
-        if !(a.abs_diff_eq(&b, z) && a.relative_eq(&b, z, z) && a.ulps_eq(&b, z, 0)) {
+        if !(T::iv_abs(&a, &b, z).0 && T::iv_rel(&a, &b, z, z).0 && T::iv_ulps(&a, &b, z, 0).0) {
             s.violation("exact-equality-not-approx-equal", format!("{a:?} == {b:?} but not approximately equal at zero tolerance"), case());
         }
     }
     // defaults agree with the element type's
     if i == 0 && j == 0 {
-        let ok = <Interval<T> as AbsDiffEq>::default_epsilon() == T::default_epsilon()
-            && <Interval<T> as RelativeEq>::default_max_relative() == T::default_max_relative()
-            && <Interval<T> as UlpsEq>::default_max_ulps() == T::default_max_ulps();
-        if !ok {
+        if !T::iv_defaults_ok() {
             s.violation("default-tolerances-differ", "Interval's default tolerances differ from the element type's".to_string(), case());
         }
     }
